@@ -147,12 +147,22 @@ def _pde_cases(rng, tier):
         for aux in ("param", "obs"):
             for rep in range(1 if tier == "quick" else 3):
                 out.append({"kind": "pde", "gen": kind, "aux": aux, "n": rng.choice([2, 3]), "seed": rng.randrange(1 << 30),
-                            "ob": rng.choice([1, 2]), "tb": rng.choice([2, 4]), "a0": str(rng.choice([-2, -1, 1, 2])),
+                            "x32": aux == "param",   # (with x32: temporal batch > spatial batch + 1, see below)
+                            "ob": rng.choice([1, 2]), "tb": 4 if aux == "param" else rng.choice([2, 4]), "a0": str(rng.choice([-2, -1, 1, 2])),
                             "c": [str(rng.choice([-2, -1, 1, 2])) for _ in range(3)]})
     return out
 
 
 def _run_pde(case):
+    if case.get("x32"):
+        # the library's default precision (int32 cursors, float32 values)
+        import jax
+        with jax.enable_x64(False):
+            return _run_pde_body(case)
+    return _run_pde_body(case)
+
+
+def _run_pde_body(case):
     """`jinns.solve` on a real LossPDEStatio / LossPDENonStatio with a CubicMesh generator and a parameter or
     observation generator of the documented batch size, against the five-line textbook loop run by the harness on
     the same objects (same generators passed in, same optimizer): loss history, final parameters, iterations."""
@@ -244,7 +254,7 @@ def _judge_pde(case, obs):
     # rounding rule of DESIGN section 2.3 (a logic error moves these values by orders of magnitude more)
     def close(a, b):
         fa, fb = Fraction(a), Fraction(b)
-        return abs(fa - fb) <= Fraction(1, 2 ** 46) * max(abs(fa), abs(fb), 1)
+        return abs(fa - fb) <= Fraction(1, 2 ** (16 if case.get("x32") else 46)) * max(abs(fa), abs(fb), 1)
 
     if len(o["hist"]) != len(o["ref"]["hist"]) or not all(close(a, b) for a, b in zip(o["hist"], o["ref"]["hist"])):
         return {"status": "violation", "clause": "loss-history", "observed": o["hist"], "reference": o["ref"]["hist"]}
@@ -444,7 +454,8 @@ def nontrivial(case, obs):
 
 def tags(case, obs):
     if case["kind"] == "pde":
-        return [f"real_loss+{case['gen']}_generator+{case['aux']}_generator"] + (["ulp_rule"] if obs.get("_ulp") else [])
+        return [f"real_loss+{case['gen']}_generator+{case['aux']}_generator" + ("+x32" if case.get("x32") else "")] + \
+            (["ulp_rule"] if obs.get("_ulp") else [])
     seg = case["segs"][0]
     out = [f"kind={case['kind']}", f"opt={seg['opt']['kind']}",
            "python_loop(obs_batch_sharding)" if seg.get("sharding") else
